@@ -24,8 +24,8 @@ import itertools
 import numpy as np
 
 META = dict(
-    engines=["sched", "product"],
-    technique="stateless exploration of all task schedules of the real dask graph under a controlled scheduler (with mutation monitor) + exhaustive eager/lazy product",
+    engines=["sched", "product", "preempt"],
+    technique="stateless exploration of all task schedules of the real dask graph under a controlled scheduler (with mutation monitor), single-preemption exploration inside tasks at abTEM call granularity, joint-graph and object-reuse spaces + exhaustive eager/lazy product",
     text="Every combination of builder, 9 potential kinds, exit-plane settings, 6 detector sets, 5 scans and 3 max_batch values is run eagerly "
          "and lazily and compared (values, shape, type, axes, metadata, outcome class); incident waves are rechunked with every composition; "
          "and for every ensemble case the real task graph is executed under all linear extensions of its abTEM tasks (<= 120 quick / 720 "
